@@ -71,7 +71,18 @@ RULE = ('valid Interest / Data / LpPacket / certificate wires built by the libra
         'the real decoder, to the Lean decoder model, to an independent strict reader (Python) and to the Lean strict decoder; '
         'decoder model = code and Lean strict decoder = Python strict reader (accept / reject, fields, kind of overrun) are '
         'compared on every wire, including the wires flagged as known finding. non-trivial = the mutated wire is accepted '
-        'by the decoder or the strict reader, or is a mutation of a valid packet; distinct = distinct wires')
+        'by the decoder or the strict reader, or is a mutation of a valid packet; distinct = distinct wires. Process '
+        'histories (each in a fresh interpreter, judged step by step, oracle only): hand-built packets of every ordered pair '
+        'of kinds, then 3..5 rounds of STATE CARRIED BETWEEN DECODES: the caller edits in place everything an earlier '
+        'decode returned (name lists, lists of names, writable component / content views, every attribute of MetaInfo / '
+        'SignatureInfo / KeyLocator / InterestParam / SignaturePtrs objects) and may reuse the buffer it had passed; and / or '
+        'gives the decoded name, the same Name in wire form (bytes / bytearray) or as components, and the decoded '
+        'InterestParam / MetaInfo to make_interest (ApplicationParameters, digest signer) / make_data / Name.normalize and '
+        'edits what comes back; then the same wire and related packets are decoded from fresh bytes / bytearray / '
+        'memoryview buffers - the same packet under another Name, the same Name in a Data, an Interest, alone, as '
+        'KeyLocator / ForwardingHint name of a Data, an Interest, a certificate, the packet inside an LpPacket - each '
+        'judged by the strict reading of its own bytes; and what an earlier decode handed out and no caller touched is read '
+        'again and must read the same')
 LEVEL_TEXT = ('Lean 4 theorems about the decoder model (generic scan loop + parse_and_check_tl + Name.decode) for ALL byte '
               'strings: decoding terminates within fuel proportional to the input and can only fail with the documented '
               'error classes; an accepted packet has its Name and an exact outer length; library-encoded packets are '
@@ -846,8 +857,128 @@ def cases(rng, tier):
                 need = {'interest': '44', 'data': '22', 'cert': '22'}.get(kind)
                 if need is None or (isinstance(kd.get(need), list) and len(kd[need]) > 1 and len(kd[need][1]) >= 2):
                     break
-            sub.append({'kind': kind, 'wire': wire.hex(), 'mut': 'spec', 'expect': json.dumps(kd, sort_keys=True)})
-        yield {'kind': 'hist', 'seq': sub, 'mut': 'history', 'wire': ''.join(c['wire'] for c in sub)}
+            sub.append({'kind': kind, 'wire': wire.hex(), 'mut': 'spec', 'expect': json.dumps(kd, sort_keys=True),
+                        'id': len(sub)})
+        # ... followed, in the same process, by the caller editing in place what those decodes returned, library calls
+        # that are given decoded values, and further decodes of the same and of related packets (see _carry_steps)
+        sub = sub + _carry_steps(rng, sub)
+        yield {'kind': 'hist', 'seq': sub, 'mut': 'history', 'wire': ''.join(c.get('wire', '') for c in sub)}
+
+
+def _packet_name(kind, wire):
+    """the components of the Name this packet carries under the harness's own strict reading (an LpPacket: of the
+    packet in its Fragment), or None"""
+    try:
+        if kind == 'name':
+            return [bytes(c) for c in S.strict_name(wire, 0, len(wire))]
+        K = _kinds_static(kind)
+        kd = _keyed(SPEC[kind], S.strict_packet(SPEC[kind], wire, K['outer'], K['ic'], K['need_name']))
+        if kind == 'lp':
+            inner = bytes.fromhex(kd['80'][1]) if '80' in kd else b''
+            return _packet_name({5: 'interest', 6: 'data'}[inner[0]], inner) if inner[:1] in (b'\x05', b'\x06') else None
+        return [bytes.fromhex(c) for c in kd['7'][1]]
+    except (S.Reject, KeyError, IndexError):
+        return None
+
+
+def _sub_name(wire, comps):
+    """the same Interest / Data / certificate with another Name: every other element byte for byte"""
+    import pktcommon as K
+    t, vs, ve = S.read_elem(wire, 0, len(wire))
+    for kt, off, kvs, kve in _kids_flat(wire, vs, ve):
+        if kt == 7:
+            body = wire[vs:off] + K.w_name(comps) + wire[kve:ve]
+            return T.tl(t) + T.tl(len(body)) + body
+    return None
+
+
+def _related(rng, kind, wire, name):
+    """packets sharing bytes with an earlier one: the very same wire; the same packet under another Name; the same Name
+    in a Data, an Interest, alone (Name.from_bytes), as a KeyLocator / ForwardingHint name of other packets, in a
+    certificate's KeyLocator; the packet inside an LpPacket. Only those the strict reading accepts are returned."""
+    import pktcommon as K
+    out = [(kind, wire, 'same')]
+    if name is None:
+        return out
+    plain = [c for c in name if c[:1] != b'\x02']
+    other = [c for c in _rand_name(rng) if c[:1] != b'\x02'] + [K.gen_comp(b'other')]
+    sig = {'type': 4, 'key_name': name, 'key': b'key12345'}
+    cand = [('name', K.w_name(name), 'name-alone')]
+    d_same = K.build_data(name, rng.choice([None, {'freshness_period': 1000}, {'content_type': 0, 'final_block_id': K.gen_comp(b'9', 50)}]),
+                          rng.choice([None, b'abc']), rng.choice([None, {'type': 0}]))
+    cand.append(('data', d_same, 'data-same-name'))
+    cand.append(('interest', K.build_interest(plain, can_be_prefix=rng.random() < 0.5, nonce=rng.getrandbits(32),
+                                              app=rng.choice([None, None, b'p'])), 'interest-same-name'))
+    cand.append(('data', K.build_data(other, {'content_type': 0}, b'x', sig), 'data-keylocator'))
+    cand.append(('interest', K.build_interest(other, forwarding_hint=[name, other], app=b'',
+                                              sig=dict(sig, nonce=rng.getrandbits(32), time=1700000000000)), 'interest-hint-keylocator'))
+    validity = K.w_tlv(0xfd, K.w_tlv(0xfe, b'20200101T000000') + K.w_tlv(0xff, b'20400101T000000'))
+    cname = other + [K.gen_comp(b'KEY'), K.gen_comp(b'\x01'), K.gen_comp(b'self'), K.gen_comp(bytes(8), 54)]
+    cand.append(('cert', K.build_data(cname, {'content_type': 2, 'freshness_period': 3600000}, b'pub', sig, validity), 'cert-keylocator'))
+    inner = wire if kind in ('interest', 'data') else d_same
+    cand.append(('lp', K.w_tlv(0x64, K.w_tlv(0x62, b'\x01\x02') + K.w_tlv(0x50, inner)), 'lp-wrapped'))
+    if kind in ('interest', 'data', 'cert'):
+        w2 = _sub_name(wire, other + [c for c in name if c[:1] == b'\x02'])
+        if w2 is not None:
+            cand.append((kind, w2, 'renamed'))
+    for k, w, tag in cand:
+        try:
+            if k == 'name':
+                S.strict_name(w, 0, len(w))
+            else:
+                Ks = _kinds_static(k)
+                S.strict_packet(SPEC[k], w, Ks['outer'], Ks['ic'], Ks['need_name'])
+            out.append((k, w, tag))
+        except S.Reject:
+            pass
+    return out
+
+
+def _carry_steps(rng, sub):
+    """STATE CARRIED BETWEEN DECODES. The statement judges every accepted packet by its own bytes, so nothing a caller does
+    with the values an earlier decode returned - and nothing the library does with them when they are passed back in -
+    may change what a later decode extracts. Rounds of: pick an earlier decode; the caller edits everything it returned
+    in place (and may reuse the buffer it had passed) and / or hands the decoded name (or the same Name in wire form) and
+    the decoded parameters to make_interest / make_data / Name.normalize and edits what comes back; then the same wire
+    and packets related to it (_related) are decoded from fresh buffers of every BinaryStr form; now and then a result
+    no caller has touched is read again."""
+    import pktcommon as K
+    known = [(c['id'], c['kind'], bytes.fromhex(c['wire'])) for c in sub]
+    known = [(i, k, w, _packet_name(k, w)) for i, k, w in known]
+    nxt, touched, steps = len(sub), set(), []
+    for _ in range(rng.choice([3, 4, 5])):
+        # mostly a decode that carried a Name; from the second round on, half the time one of the later decodes (the
+        # ones that were given writable buffers)
+        late = [k for k in known if k[0] >= len(sub)]
+        named = [k for k in known if k[3] is not None]
+        sid, kind, wire, name = rng.choice(late if late and rng.random() < 0.5 else
+                                           named if named and rng.random() < 0.85 else known)
+        act = rng.choice(['edit', 'edit', 'make', 'make', 'both'])
+        if act in ('edit', 'both') or name is None:
+            steps.append({'kind': 'edit', 'of': sid, 'seed': rng.getrandbits(30), 'scribble': rng.random() < 0.5})
+            touched.add(sid)
+        if act in ('make', 'both') and name is not None:
+            call = rng.choice(['interest', 'interest', 'data', 'normalize'])
+            src = rng.choice(['slot', 'wire', 'wire', 'wire-ba', 'comps'])
+            own = rng.random() < 0.4
+            steps.append({'kind': 'make', 'call': call, 'src': src, 'of': sid, 'name': K.w_name(name).hex(),
+                          'app': rng.choice(['', '73696e63653d30', '73696e63653d30', None]), 'sign': rng.random() < 0.3,
+                          'own_param': own, 'then_edit': rng.choice([None, rng.getrandbits(30)])})
+            if src == 'slot' or own:
+                touched.add(sid)
+        rel = _related(rng, kind, wire, name)
+        picks = ([rel[0]] if rng.random() < 0.75 or len(rel) == 1 else []) + \
+            rng.sample(rel[1:], min(len(rel) - 1, rng.choice([1, 2, 3])))
+        rng.shuffle(picks)
+        for k, w, tag in picks:
+            steps.append({'kind': k, 'wire': w.hex(), 'mut': 'carry:' + tag, 'id': nxt,
+                          'buf': rng.choice(['bytes', 'bytes', 'bytearray', 'memoryview'])})
+            known.append((nxt, k, w, _packet_name(k, w)))
+            nxt += 1
+        fresh = [i for i, _, _, _ in known if i not in touched]
+        if fresh and rng.random() < 0.6:
+            steps.append({'kind': 'recheck', 'of': rng.choice(fresh)})
+    return steps
 
 
 def shrink(case):
@@ -855,7 +986,7 @@ def shrink(case):
         for i in range(len(case['seq'])):
             if len(case['seq']) > 1:
                 sq = case['seq'][:i] + case['seq'][i + 1:]
-                yield dict(case, seq=sq, wire=''.join(c['wire'] for c in sq))
+                yield dict(case, seq=sq, wire=''.join(c.get('wire', '') for c in sq))
         return
     w = bytes.fromhex(case['wire'])
     # only truncation-from-the-end style shrinking keeps TLV structure poorly; try removing trailing bytes of the
@@ -873,14 +1004,208 @@ import lib
 lib.setup_repo_path()
 from props import c07
 seq = json.load(sys.stdin)
-out = []
-for c in seq:
-    try:
-        out.append(c07.run_impl(c))
-    except BaseException as e:      # noqa - the parent reports it as this packet's observation
-        out.append({'crash': type(e).__name__ + ': ' + str(e)[:200]})
-print('HISTORY-RESULT ' + json.dumps(out))
+print('HISTORY-RESULT ' + json.dumps(c07._run_steps(seq)))
 '''
+
+STEP_KINDS = ('edit', 'make', 'recheck')
+
+
+def _run_steps(seq):
+    """one process: the steps of a history in order. A decode step is an ordinary case (judged on its own bytes); what it
+    returned stays alive under its id. 'edit' = the CALLER changes in place everything a decode handed out (lists,
+    writable buffers, attributes of the returned objects) and may reuse the buffer it had passed in; 'make' = the caller
+    passes a decoded name / the same Name in wire form / decoded parameters to make_interest, make_data or
+    Name.normalize, which may legitimately edit what they were given, and may then edit what came back; 'recheck' =
+    what an earlier decode handed out, untouched since by the caller, is read again."""
+    slots, touched, out = {}, set(), []
+    for i, c in enumerate(seq):
+        try:
+            if c['kind'] == 'edit':
+                out.append(_step_edit(c, slots, touched))
+            elif c['kind'] == 'make':
+                out.append(_step_make(c, slots, touched))
+            elif c['kind'] == 'recheck':
+                keep = slots.get(c['of'])
+                if keep is None or c['of'] in touched:
+                    out.append({'skip': True})
+                else:
+                    out.append({'recheck': c['of'], 'same': _reobserve(keep) == keep['obs']})
+            else:
+                keep = {'kind': c['kind']}
+                r = run_impl(c, keep)
+                keep['obs'] = _reobserve(keep)
+                slots[c.get('id', i)] = keep
+                out.append(r)
+        except BaseException as e:      # noqa - the parent reports it as this step's observation
+            out.append({'crash': type(e).__name__ + ': ' + str(e)[:200]})
+    return out
+
+
+def _reobserve(keep):
+    """everything the decode of this slot handed to the caller, as text (compared only with itself, earlier)"""
+    import json
+    try:
+        res, kind = keep.get('res'), keep['kind']
+        if res is None:
+            return 'nothing'
+        if kind == 'name':
+            return T.value_text(('n', [bytes(c) for c in res]))
+        o = [T.values_text(T.from_instance(keep['fs'], keep['inst']))]
+        if kind in ('interest', 'data'):
+            o.append(json.dumps(_api_keyed(kind, res), sort_keys=True))
+            sp = res[3]
+            for part in (sp.signature_covered_part, sp.digest_covered_part, [sp.digest_value_buf]):
+                o.append([None if x is None else bytes(x).hex() for x in (part or [])])
+        return json.dumps(o)
+    except Exception as e:      # noqa
+        return 'unreadable: ' + type(e).__name__
+
+
+def _other(v, rnd, field=None):
+    """a value of the same family as v that differs from it"""
+    from ndn.encoding import TlvModel
+    if v is None:
+        cls = type(field).__name__
+        return {'UintField': 7, 'BoolField': True, 'BytesField': b'\xde\xad', 'NameField': [b'\x08\x03new']}.get(cls)
+    if isinstance(v, bool):
+        return not v
+    if isinstance(v, int):
+        return int(v) + 1
+    if isinstance(v, str):
+        return v + 'x'
+    if isinstance(v, (bytes, bytearray, memoryview)):
+        return b'\xde\xad\xbe\xef'
+    if isinstance(v, (list, TlvModel)) and rnd.random() < 0.3:
+        return None
+    return v
+
+
+def _scramble(x, rnd, seen=None, depth=0):
+    """the caller edits IN PLACE everything reachable from a value a decoder handed out; returns the number of edits"""
+    import dataclasses as dc
+    from ndn.encoding import TlvModel
+    seen = {} if seen is None else seen
+    if x is None or depth > 8 or id(x) in seen or isinstance(x, (bytes, str, int, float)):
+        return 0
+    seen[id(x)] = x
+    if isinstance(x, (bytearray, memoryview)):
+        if isinstance(x, memoryview) and (x.readonly or x.ndim != 1):
+            return 0
+        for i in range(len(x)):
+            x[i] ^= 0xFF
+        return 1 if len(x) else 0
+    if isinstance(x, tuple):
+        return sum(_scramble(y, rnd, seen, depth + 1) for y in x)
+    if isinstance(x, dict):
+        return sum(_scramble(y, rnd, seen, depth + 1) for y in list(x.values()))
+    if isinstance(x, list):
+        n = sum(_scramble(y, rnd, seen, depth + 1) for y in list(x))
+        before = list(x)
+        extra = [b'\x08\x03xyz'] if x and isinstance(x[0], list) else b'\x08\x05extra'
+        op = rnd.choice(['append', 'append', 'pop', 'insert', 'replace', 'clear', 'extend', 'reverse', 'del-first'])
+        if op == 'pop' and x:
+            x.pop()
+        elif op == 'insert':
+            x.insert(0, extra)
+        elif op == 'replace' and x:
+            x[rnd.randrange(len(x))] = extra
+        elif op == 'clear':
+            x.clear()
+        elif op == 'extend':
+            x += [extra, extra]
+        elif op == 'reverse':
+            x.reverse()
+        elif op == 'del-first' and x:
+            del x[0]
+        if op == 'append' or len(x) == len(before) and all(a is b for a, b in zip(x, before)):
+            x.append(extra)
+        return n + 1
+    if isinstance(x, TlvModel):
+        fields = [(f.name, f) for f in type(x)._encoded_fields]
+        get = lambda k: x.__dict__.get(k)      # noqa
+    elif dc.is_dataclass(x) and not isinstance(x, type):
+        fields = [(f.name, None) for f in dc.fields(x)]
+        get = lambda k: getattr(x, k, None)    # noqa
+    else:
+        return 0
+    n = 0
+    for k, f in fields:
+        v = get(k)
+        n += _scramble(v, rnd, seen, depth + 1)
+        try:
+            nv = _other(v, rnd, f)
+            if nv is not v:
+                setattr(x, k, nv)
+                n += 1
+        except Exception:      # noqa - a field that cannot be assigned
+            pass
+    return n
+
+
+def _step_edit(c, slots, touched):
+    import random
+    keep = slots.get(c['of'])
+    if keep is None:
+        return {'skip': True}
+    rnd = random.Random(c['seed'])
+    touched.add(c['of'])
+    seen = {}
+    n = _scramble(keep.get('res'), rnd, seen) + _scramble(keep.get('inst'), rnd, seen)
+    b = keep.get('buf')
+    if c.get('scribble') and isinstance(b, (bytearray, memoryview)) and not (isinstance(b, memoryview) and b.readonly):
+        # the receive buffer is used again for something else
+        b[:] = bytes(rnd.getrandbits(8) for _ in range(len(b)))
+        n += 1
+    return {'edited': n}
+
+
+def _slot_name(keep):
+    res = keep.get('res')
+    if isinstance(res, tuple):
+        return res[0] if isinstance(res[0], list) else None
+    if isinstance(res, list):
+        return res
+    n = getattr(res, 'name', None)
+    return n if isinstance(n, list) else None
+
+
+def _step_make(c, slots, touched):
+    import random
+    from ndn.encoding import Name, InterestParam, MetaInfo, make_interest, make_data
+    keep = slots.get(c['of'])
+    wire_name = bytes.fromhex(c['name'])
+    src, name = c['src'], None
+    if src == 'slot' and keep is not None:
+        name = _slot_name(keep)
+        if name is not None:
+            touched.add(c['of'])
+    if name is None:
+        name = {'wire-ba': bytearray(wire_name), 'comps': [bytes(x) for x in S.strict_name(wire_name, 0, len(wire_name))]
+                }.get(src, wire_name)
+    own = None
+    if c.get('own_param') and keep is not None and isinstance(keep.get('res'), tuple):
+        own = keep['res'][1]
+        touched.add(c['of'])
+    app = None if c.get('app') is None else bytes.fromhex(c['app'])
+    signer = None
+    if c.get('sign'):
+        import pktcommon
+        signer = pktcommon.SynthSigner(32, 32, 0)      # a SHA-256 digest "signature", without importing ndn.security
+    ret = None
+    try:
+        if c['call'] == 'interest':
+            ip = own if isinstance(own, InterestParam) else InterestParam(nonce=0x01020304)
+            _, ret = make_interest(name, ip, app_param=app, signer=signer, need_final_name=True)
+        elif c['call'] == 'data':
+            make_data(name, own if isinstance(own, MetaInfo) else MetaInfo(freshness_period=1000), app, signer)
+        else:
+            ret = Name.normalize(name)
+        made = 'ok'
+    except Exception as e:      # noqa - what an encoder does with what it is given is not this property's subject
+        made = _exc(e)
+    if c.get('then_edit') is not None and ret is not None:
+        _scramble(ret, random.Random(c['then_edit']))
+    return {'made': made}
 
 
 def _run_history(case):
@@ -894,15 +1219,31 @@ def _run_history(case):
     raise RuntimeError('history child gave no result: ' + (p.stderr or p.stdout)[-400:])
 
 
-def run_impl(case):
+def _in_form(wire, form):
+    """the caller's buffer handed to a decoder: BinaryStr = bytes | bytearray | memoryview (a writable one)"""
+    if form == 'bytearray':
+        return bytearray(wire)
+    if form == 'memoryview':
+        return memoryview(bytearray(wire))
+    return wire
+
+
+def run_impl(case, keep=None):
+    """`keep` (a dict, history steps only) receives what the decoders returned and the buffer they were given, so that
+    later steps of the same process can edit them in place; the strict readings always read the case's own bytes"""
     if case['kind'] == 'hist':
         return _run_history(case)
     wire = bytes.fromhex(case['wire'])
+    buf = _in_form(wire, case.get('buf'))
+    if keep is not None:
+        keep['buf'] = buf
     out = {}
     if case['kind'] == 'name':
         from ndn.encoding import Name
         try:
-            n = Name.from_bytes(wire)
+            n = Name.from_bytes(buf)
+            if keep is not None:
+                keep['res'] = n
             out['dec'] = ['ok', T.value_text(('n', [bytes(c) for c in n]))]
         except Exception as e:   # noqa
             out['dec'] = ['err', _exc(e)]
@@ -916,9 +1257,11 @@ def run_impl(case):
     fs = T.class_schema(K['cls'])
     out['schema_text'] = T.schemas_text(fs)
     try:
-        res = K['api'](wire)
+        res = K['api'](buf)
         from ndn.encoding.tlv_var import parse_and_check_tl
-        inst = res if case['kind'] in ('lp', 'cert') else K['cls'].parse(parse_and_check_tl(wire, K['outer']))
+        inst = res if case['kind'] in ('lp', 'cert') else K['cls'].parse(parse_and_check_tl(buf, K['outer']))
+        if keep is not None:
+            keep.update(res=res, inst=inst, fs=fs)
         vals = T.from_instance(fs, inst)
         out['dec'] = ['ok', T.values_text(vals)]
         dec_k = _keyed(fs, vals)
@@ -1029,11 +1372,18 @@ def impl_obs(impl):
 def oracle(case, impl):
     if case['kind'] == 'hist':
         for i, (c, r) in enumerate(zip(case['seq'], impl['seq'])):
+            if c['kind'] in ('edit', 'make') or r.get('skip'):
+                continue      # what the caller does, and what the encoders do with what they are given: not judged here
+            before = ', '.join(x['kind'] for x in case['seq'][:i]) or 'nothing'
             if 'crash' in r:
                 return f"packet {i} ({c['kind']}) of a sequence decoded in one fresh process: the decoder run crashed: {r['crash']}"
+            if c['kind'] == 'recheck':
+                if not r['same']:
+                    return (f"step {i}: the fields handed out for the packet decoded as step id {c['of']} (not touched by the "
+                            f"caller since) no longer read the same after {before} in a fresh process")
+                continue
             why = oracle(c, r)
             if why:
-                before = ', '.join(x['kind'] for x in case['seq'][:i]) or 'nothing'
                 return f"packet {i} ({c['kind']}), decoded after {before} in a fresh process: {why}"
         return None
     d, s = impl['dec'], impl.get('spec', impl['strict'])
@@ -1085,7 +1435,18 @@ def nontrivial(case, impl):
 
 def tags(case, impl):
     if case['kind'] == 'hist':
-        return ['kind:hist', 'history:' + '>'.join(c['kind'] for c in case['seq'])]
+        pre = [c for c in case['seq'] if c['kind'] not in STEP_KINDS and not c.get('mut', '').startswith('carry:')]
+        t = ['kind:hist', 'history:' + '>'.join(c['kind'] for c in pre)]
+        for c, r in zip(case['seq'], impl['seq']):
+            if c['kind'] == 'edit':
+                t.append('history-step:caller-edit' + (':edits-made' if r.get('edited') else ''))
+            elif c['kind'] == 'make':
+                t.append('history-step:make-%s:%s:%s' % (c['call'], c['src'], 'ok' if r.get('made') == 'ok' else 'raised'))
+            elif c['kind'] == 'recheck':
+                t.append('history-step:recheck')
+            elif c.get('mut', '').startswith('carry:'):
+                t.append('history-step:decode-%s:%s:%s' % (c['mut'][6:], c.get('buf'), r.get('dec', ['?'])[0]))
+        return t
     d, s = impl['dec'], impl['strict']
     t = ['kind:' + case['kind'], 'mut:' + case['mut'].split('+')[0], 'dec:' + (d[0] if d[0] == 'ok' else d[1]),
          'strict:' + (s[0] if s[0] == 'ok' else s[1][:30]), 'len:%d' % (len(case['wire']) // 200 * 100)]
